@@ -213,6 +213,8 @@ func (C05) Decode(raw json.RawMessage) (any, error) {
 type listExtractor struct {
 	spec *ListExtSpec
 	rec  *[]extractRec // every Extract call (main scan and layer tracing), if recording
+	// onExtract, if set, is called at the start of the n-th Extract call (1-based)
+	onExtract func(n int)
 }
 
 // extractRec is one file handed to a harness extractor.
@@ -220,6 +222,7 @@ type extractRec struct {
 	Path     string
 	InfoSize int64
 	Bytes    int
+	CtxErr   bool // the context handed to Extract was already cancelled when the call started
 }
 
 func (e *listExtractor) Name() string                       { return e.spec.Name }
@@ -243,10 +246,14 @@ func parseList(b []byte) [][2]string {
 	}
 	return out
 }
-func (e *listExtractor) Extract(_ context.Context, in *filesystem.ScanInput) (inventory.Inventory, error) {
+func (e *listExtractor) Extract(ctx context.Context, in *filesystem.ScanInput) (inventory.Inventory, error) {
+	ctxErr := ctx.Err() != nil
+	if e.onExtract != nil && e.rec != nil {
+		e.onExtract(len(*e.rec) + 1)
+	}
 	b, err := io.ReadAll(in.Reader)
 	if e.rec != nil {
-		r := extractRec{Path: in.Path, InfoSize: -1, Bytes: len(b)}
+		r := extractRec{Path: in.Path, InfoSize: -1, Bytes: len(b), CtxErr: ctxErr}
 		if in.Info != nil {
 			r.InfoSize = in.Info.Size()
 		}
